@@ -387,6 +387,39 @@ def run(chk):
         else:
             ok = any(pat.is_(f, "is_serverless(E_x)", "E_q.is_serverless(E_x)", f"not {dist}") for f in fs)
         chk.ob("O15.3", "master only under strictly-greater major / serverless / empty version", ok, m_, f"{[(u(t), p_) for t, p_ in guards(m_)]}")
+    # what the matcher returns for an identified version is one of the GIVEN branches: `master` needs a membership fact (a repository without a master branch must fall
+    # through to the v-tag / the local branches / the error, not to a checkout of a branch that does not exist)
+    alt = params_of(bm)[0]
+    for m_ in masters:
+        fs = pat.fact_nodes(m_)
+        if any(isinstance(f, ast.Call) and last_attr(f.func) == "is_version_identifier" for f in fs):
+            ok = any(pat.is_(f, f"'master' in {alt}") for f in fs)
+            chk.ob("O15.3", "for an identified version `master` is returned only if it is among the given branches", ok, m_, f"facts {[u(f) for f in fs]}" + ("" if ok else
+                   f" — no `'master' in {alt}`: for a repository without master the v-tag / local fallback is skipped and the checkout of [master] fails"), key=f"{_V}:best_match:master-membership")
+    # the lenient branch-name pattern accepts exactly MAJOR[.MINOR[.PATCH[-SUFFIX]]] (decided by matching the extracted literal against representative names):
+    # an unrelated branch such as 123-fix-typo must not count as a version (components() would read absent parts)
+    import re as _re
+    pats = {}
+    for n in ver.tree.body:
+        if isinstance(n, ast.Assign) and isinstance(n.value, ast.Call) and dotted(n.value.func) == "re.compile" and n.value.args and isinstance(n.value.args[0], ast.Constant):
+            pats[n.targets[0].id] = (n, n.value.args[0].value)
+    vp_ = ver.func("_versions_pattern")
+    lenient = [r_.value.orelse.id if isinstance(r_.value, ast.IfExp) and isinstance(r_.value.orelse, ast.Name) else None for r_ in walk_body(vp_) if isinstance(r_, ast.Return)]
+    lenient = [x for x in lenient if x in pats] or [k for k in pats if "OPTIONAL" in k]
+    if not lenient:
+        raise AnchorMissing("lenient version pattern (the one _versions_pattern returns for strict=False)")
+    ln, ltxt = pats[lenient[0]]
+    try:
+        rx = _re.compile(ltxt)
+    except _re.error as e:
+        raise AnchorMissing(f"lenient version pattern does not compile: {e}")
+    NAMES = [("7", True), ("7.3", True), ("7.3.1", True), ("7.3.1-SNAPSHOT", True), ("0.0", True), ("master", False), ("123-fix-typo", False), ("2024-05-cleanup", False), ("7-dev", False),
+             ("8.1-backport", False), ("7.", False), ("v7.3.1", False), ("7.3.1.2", False), ("", False)]
+    for name, want in NAMES:
+        got = rx.match(name) is not None
+        chk.ob("O15.3", f"branch name {name!r} {'is' if want else 'is not'} a version branch", got == want, ln, f"pattern {ltxt!r} {'matches' if got else 'does not match'}" + ("" if got == want else
+               " — the name is parsed as a version with absent parts: int(None) raises TypeError in components(), the repository update crashes on an unrelated branch" if got else " — a versioned branch is ignored"),
+               key=f"{_V}:{lenient[0]}:{name}")
     # master for a version identifier only after the variants loop is exhausted
     g = cfg_of(bm)
     for m_ in masters:
@@ -565,6 +598,9 @@ def run(chk):
 from sa.selftest import V  # noqa: E402
 
 VARIANTS = [
+    V("F21: every part of the lenient pattern independently optional", "break", _V, '(?:\\.(\\d+)(?:\\.(\\d+)(?:-(.+))?)?)?$")', '(?:\\.(\\d+))?(?:\\.(\\d+))?(?:-(.+))?$")', "O15.3"),
+    V("F22: master returned without a membership test", "break", _V, ' and "master" in available_alternatives:', ":", "O15.3"),
+    V("F22 fix with the operands swapped", "keep", _V, 'if major > _latest_major(available_alternatives) and "master" in available_alternatives:', 'if "master" in available_alternatives and _latest_major(available_alternatives) < major:', "O15.3"),
     V("F5a: truthiness on minor in eligibility", "break", _V, "            if major == target_version.major and minor is not None and minor <= target_version.minor:", "            if major == target_version.major and minor and minor <= target_version.minor:", "O15."),
     V("F5b / seed m1: truthiness on the walrus result", "break", _V, "(latest_minor := latest_bounded_minor(available_alternatives, versions)) is not None:", "(latest_minor := latest_bounded_minor(available_alternatives, versions)):", "O15.2"),
     V("variants list reversed", "break", _V, "        return versions\n\n\ndef best_match", "        return list(reversed(versions))\n\n\ndef best_match", "O15.1"),
@@ -572,7 +608,7 @@ VARIANTS = [
     V("eligibility ignores major", "break", _V, "            if major == target_version.major and minor is not None and minor <= target_version.minor:", "            if minor is not None and minor <= target_version.minor:", "O15.3"),
     V("later minors eligible", "break", _V, "minor is not None and minor <= target_version.minor:", "minor is not None:", "O15.3"),
     V("patch branches eligible", "break", _V, "            if patch is not None or suffix is not None:", "            if suffix is not None:", "O15.3"),
-    V("master on >=", "break", _V, "        if major > _latest_major(available_alternatives):", "        if major >= _latest_major(available_alternatives):", "O15.3"),
+    V("master on >=", "break", _V, "        if major > _latest_major(available_alternatives) and", "        if major >= _latest_major(available_alternatives) and", "O15.3"),
     V("nearest = min", "break", _V, "    return min(eligible_minors, key=lambda x: abs(x - target_version.minor))", "    return min(eligible_minors)", "O15.3"),
     V("seed m2: remote ref split on last slash", "break", _G, "            branches.append(ref[ref.index(\"/\") + 1 :].strip())", "            branches.append(ref.split(\"/\")[-1].strip())", "O15.4"),
     V("seed m3: checkout inside the rebase try", "break", _P, "                    git.checkout(self.repo_dir, branch=branch)\n                    self.logger.info(\"Rebasing on [%s] in [%s] for distribution version [%s].\", branch, self.repo_dir, distribution_version)\n                    try:\n",
